@@ -62,12 +62,15 @@ def geom(name, tree='T1', nfree=6, window_mid=False, bounds=None, info=None):
         # three FAT copies (legal, rare): the data area starts behind ALL of them
         'G16t': dict(fat32=False, clusters=4100, bpc=1, nfats=3, root_entries=32, lba=8, slot=0, ptype=6),
         'G32t': dict(fat32=True, clusters=65600, bpc=2, nfats=4, lba=8, slot=0, ptype=0x0C, reserved=32),
+        # a tight reserved region: backup boot sector at 6, so that "backup + information sector" is the first FAT block
+        'G32r': dict(fat32=True, clusters=65600, bpc=1, nfats=2, lba=8, slot=0, ptype=0x0C, reserved=7, fsinfo=1),
     }[name]
     v = dict(P)
     # volume serial numbers: any 32 bits (on FAT16 they sit where FAT32 keeps its FAT-mirroring flags)
     v['serial'] = {'G16a': 0x00800000, 'G16b': 0xFFFFFFFF, 'G16c': 0x00810000, 'G16d': 0xA5A5A5A5, 'G16e': 0x80808080, 'G16f': 0x00008100,
                    'G16g': 0x00008000, 'G16h': 0x0F0F8F0F, 'G32a': 0xFFFFFFFF, 'G32b': 0x80000001}.get(name, 0x12345678)
     if v['fat32']:
+        v['dirty'] = {'G32a': 1, 'G32c': 3, 'G32r': 1}.get(name, 0)      # the "volume is mounted / needs checking" bits another system left set
         v['ext_flags'] = {'G32a': 0x0081, 'G32c': 0x0080, 'G32f': 0x0001, 'G32h': 0x008F, 'G32t': 0x0082}.get(name, 0)
     n = v['clusters']
     bpc = v['bpc']
@@ -201,7 +204,7 @@ def scripted(big=False):
             O('open_file', d='d0', name='HIWORD.DAT', mode='Truncate', as_='fh2'), O('write', f='fh2', n=1), O('close_file', f='fh2'),
             O('delete', d='d0', name='HIWORD.DAT'),
         ] + epilogue()
-        add('S1-' + gname, img, ops, upc)
+        add('S1-' + gname, img, ops, upc, log=(gname in ('G16a', 'G32b', 'G16e')))     # (some with a logger at trace level installed)
 
     # S2: pre-existing fragmented high->low chain, long names, nested dirs, stale handles
     for gname in ['G16a', 'G32a']:
@@ -243,7 +246,7 @@ def scripted(big=False):
         add('S2-' + gname, img, ops, upc)
 
     # S3: fill to exactly full and back, twice; delete of multi-cluster files; truncate 1/2/many
-    for gname, nfree in [('G16a', 4), ('G16b', 4), ('G32a', 5), ('G32b', 4), ('G16c', 3), ('G16g', 3), ('G32c', 3), ('G16e', 6), ('G16t', 3), ('G32t', 3)]:
+    for gname, nfree in [('G16a', 4), ('G16b', 4), ('G32a', 5), ('G32b', 4), ('G16c', 3), ('G16g', 3), ('G32c', 3), ('G16e', 6), ('G16t', 3), ('G32t', 3), ('G32r', 4)]:
         img = image_of(gname, tree='T0', nfree=nfree, info=dict(info_free='unknown') if gname == 'G32b' else None)
         upc = img[1]
         ops = prologue()
@@ -673,6 +676,28 @@ def scripted(big=False):
                         O('delete', d='d1', name=last), O('delete', d='d0', name='LOG.TXT'), O('close_dir', d='d1')] + epilogue()
     add('S27-G16e', (dict(vols=[v]), upc, bounds), ops, upc)
 
+    # S28: a short file that owns a long chain (pre-allocated by another system, or left by an interrupted truncation), a file
+    # whose first cluster is the last cluster of the volume: truncated, refilled, deleted - the space comes back
+    for gname in ['G16a', 'G32a', 'G16c']:
+        v, upc, bounds = geom(gname, tree='T0', nfree=7)
+        fr = sorted(c for c in v['window'] if c >= v['clusters'] + 2 - 7)
+        v['root'] = [f('PREALLOC.DAT', fr[0:3], 1), f('LAST.DAT', [fr[6]], min(2, upc))]
+        ops = prologue() + [O('open_file', d='d0', name='PREALLOC.DAT', mode='Truncate', as_='f0'), O('close_file', f='f0'),
+                            O('open_file', d='d0', name='FILL.BIN', mode='Create', as_='f1'), O('write', f='f1', n=5 * upc), O('write', f='f1', n=1), O('close_file', f='f1'),
+                            O('open_file', d='d0', name='LAST.DAT', mode='Truncate', as_='f2'), O('write', f='f2', n=1), O('close_file', f='f2'),
+                            O('open_file', d='d0', name='LAST.DAT', mode='CreateOrTruncate', as_='f3'), O('close_file', f='f3'),
+                            O('delete', d='d0', name='LAST.DAT'), O('delete', d='d0', name='FILL.BIN'), O('delete', d='d0', name='PREALLOC.DAT'),
+                            O('open_file', d='d0', name='ALL.BIN', mode='Create', as_='f4'), O('write', f='f4', n=7 * upc), O('write', f='f4', n=1), O('close_file', f='f4')] + epilogue()
+        add('S28-' + gname, (dict(vols=[v]), upc, bounds), ops, upc)
+
+    # S29: "." opened on a root while the open-directory table and the open-volume table are not aligned
+    img = image_multi()
+    ops = [O('open_volume', idx=0, as_='v0'), O('open_volume', idx=1, as_='v1'), O('open_root', v='v1', as_='b'), O('open_root', v='v0', as_='a'),
+           O('open_dir', d='a', name='.', as_='ad'), O('open_file', d='ad', name='DOT.TXT', mode='Create', as_='f0'), O('write', f='f0', n=2), O('close_file', f='f0'),
+           O('iterate', d='a'), O('iterate', d='b'), O('close_dir', d='a'), O('close_volume', v='v0'), O('close_dir', d='b'), O('close_volume', v='v1'),
+           O('open_dir', d='ad', name='.', as_='ad2'), O('iterate', d='ad2'), O('close_dir', d='ad2'), O('close_dir', d='ad'), O('close_volume', v='v0'), O('close_volume', v='v1'), O('remount')]
+    add('S29-multi', img, ops, img[1], lim=(4, 4, 4) if False else (8, 8, 4), log=True)
+
     # S7: several volumes at once
     img = image_multi()
     upc = img[1]
@@ -944,6 +969,20 @@ def lfn_histories(seed, quick):
                             O('find', d='d0', name=root[-1]['name'][:8].strip() + '.' + root[-1]['name'][8:].strip())] + epilogue()[:2]
         fix_slot(dict(vols=[v]), ops)
         H.append(dict(id='L%d' % k, src='lfn', image=dict(vols=[v]), bounds=bounds, limits=[4, 4, 1], ops=ops, chk='listing'))
+        if k % (4 if quick else 1) == 0:
+            # the same directory as a FAT32 root whose chain jumps about the volume: runs straddle links between clusters that
+            # are not neighbours on the medium
+            v2, upc2, bounds2 = geom('G32a', tree='T0', nfree=2, bounds=[0])
+            need = (len(root) + 15) // 16 + 1
+            rest = list(range(3, 3 + 2 * need, 2)) + list(range(4, 4 + 2 * need, 2))
+            rng.shuffle(rest)
+            chain = [2] + rest[:need - 1]
+            v2['window'] = sorted(set(v2['window'] + chain))
+            v2['root_chain'] = chain
+            v2['root'] = root
+            ops2 = [dict(o) for o in ops]
+            fix_slot(dict(vols=[v2]), ops2)
+            H.append(dict(id='LF%d' % k, src='lfn', image=dict(vols=[v2]), bounds=bounds2, limits=[4, 4, 1], ops=ops2, chk='listing'))
     # arbitrary directory bytes never crash a listing
     for k in range(6 if quick else 60):
         raw = []
@@ -981,8 +1020,12 @@ def mount_geometries(seed, quick):
         for bpc in (1, 2, 4, 8, 16, 32, 64, 128):
             for clusters in ((4085, 4086, 20000, 65524) if not fat32 else (65525, 65526, 70000)):
                 combos.append((fat32, bpc, clusters))
+        # cluster counts that fill the last FAT block exactly (count + 2 is a multiple of the entries per block)
+        for clusters in ((4350, 8190, 65278) if not fat32 else (65662, 66046)):
+            combos.append((fat32, 1 if clusters % 3 else 4, clusters))
     for k, (fat32, bpc, clusters) in enumerate(combos):
-        if quick and k % 3 != seed % 3 and clusters not in (4085, 65524, 65525):
+        exact = (clusters + 2) % (128 if fat32 else 256) == 0
+        if quick and k % 3 != seed % 3 and clusters not in (4085, 65524, 65525) and not exact:
             continue
         reserved = rng.choice([1, 2, 8, 63]) if not fat32 else rng.choice([7, 32, 100])
         v = dict(fat32=fat32, clusters=clusters, bpc=bpc, nfats=rng.choice([1, 2]), lba=rng.choice([1, 63, 2048, 100000]), slot=k % 4,
@@ -995,7 +1038,7 @@ def mount_geometries(seed, quick):
             v['total16'] = rng.random() < 0.5
         # blocks behind the last whole cluster, FAT sectors beyond the needed ones, a partition longer than the volume
         v['extra_tail'] = rng.choice([0, bpc - 1, bpc // 2]) if bpc > 1 else 0
-        v['fat_extra'] = rng.choice([0, 0, 1, 5])
+        v['fat_extra'] = 0 if exact else rng.choice([0, 0, 1, 5])
         v['part_extra'] = rng.choice([0, 0, 100])
         low = [c for c in range(2, 30) if c != v.get('root_cluster')][:6]
         root, used = tree_T1(low, bpc)
@@ -1041,7 +1084,8 @@ def fault_histories(seed, quick):
         tail += [O('close_volume', v='v0'), O('close_volume', v='v0'), O('remount')]
         H.append(dict(id=hid, src='fault', image=image, bounds=bounds, limits=list(lim), ops=ops + tail, fault_enum=dict(cap=cap, multi=12 if quick else 400)))
 
-    for gname in (['G16a', 'G32a'] if quick else ['G16a', 'G32a', 'G16c', 'G32b', 'G16b']):
+    for gname in (['G16a', 'G32a', 'G16b'] if quick else ['G16a', 'G32a', 'G16c', 'G32b', 'G16b', 'G16t']):
+        # (G16b, G32b: a single FAT; G16t: three of them)
         # read-only walks over a multi-cluster directory (FAT reads inside the walk), each call twice (retry)
         img = image_of(gname, tree='T2', nfree=4)
         upc = img[1]
